@@ -289,46 +289,83 @@ def _first_key(v):
     return ("filter", "first", ("call", ("attr", ("attr", v, "element_count"), "keys"), (), ()), (), ())
 
 
-def _def_loops(ctx, rel, prefix_text, seq, suffix_of, what):
-    """loops `for v in <seq>` whose body is `<prefix_text><suffix(v)> <sep> loop.index0`."""
+def _jsubst(e, sets):
+    """the expression with the names bound by earlier `{% set %}` / macro parameters replaced by what they stand for"""
+    if isinstance(e, tuple) and len(e) == 2 and e[0] == "name" and e[1] in sets:
+        return sets[e[1]]
+    if isinstance(e, tuple):
+        return tuple(_jsubst(x, sets) if isinstance(x, tuple) else x for x in e)
+    return e
+
+
+def _target_names(tg):
+    return [tg[1]] if tg[0] == "name" else [n for x in tg[1] for n in _target_names(x)] if tg[0] in ("tuple", "list") else []
+
+
+def _stream(items):
+    """walk_items as the text it writes: yields (item, stack) like J.walk_items, but an output has the `{% set %}` names (macro
+    parameters included) it mentions replaced by their values, and `{{ "lit" ~ x }}` / `{{ "lit" }}` arrive as text + output --
+    `IDX_{{ "ELEM_" ~ k }}` and `IDX_ELEM_{{ k }}` are the same stream.  `set` items are passed through (value resolved)."""
+    sets = {}
+    for it, st in J.walk_items(items):
+        k = it[0]
+        if k == "set":
+            v = _jsubst(it[2], sets)
+            if it[1][0] == "name":
+                sets[it[1][1]] = v
+            yield ("set", it[1], v) + tuple(it[3:]), st
+        elif k == "for":
+            for n in _target_names(it[1]):
+                sets.pop(n, None)          # the loop re-binds the name
+            yield it, st
+        elif k == "out":
+            e = _jsubst(it[1], sets)
+            parts = list(e[1]) if e[0] == "concat" else [e]
+            for p_ in parts:
+                if p_[0] == "const" and isinstance(p_[1], str):
+                    yield ("text", p_[1]) + tuple(it[2:]), st
+                else:
+                    yield ("out", p_) + tuple(it[2:]), st
+        else:
+            yield it, st
+
+
+def _loop_stream(loop):
+    """the direct body of a for item as [("text", s) | ("out", e)], or None when it holds a nested loop"""
+    if any(x[0] == "for" for x in loop[3]):
+        return None
+    return [x for x, _ in _stream(loop[3]) if x[0] in ("text", "out")]
+
+
+def _def_loops(ctx, rel, prefix_re, seq, suffix_of, what, expected):
+    """loops `for v in <seq>` whose body writes `<prefix><suffix(v)> <sep> loop.index0` (through {% set %} names or a macro alike)."""
     items = J.flatten(ctx.tree, rel, {})
     ctx.saw(rel)
     hits = []
-    for it, st in J.walk_items(items):
+    for it, st in _stream(items):
         if it[0] == "for":
-            txt = "".join(x[1] for x in it[3] if x[0] == "text")
-            if prefix_text in txt and not any(x[0] == "for" for x in it[3]):
-                hits.append(it)
+            body = _loop_stream(it)
+            if body is not None and re.search(prefix_re, "".join(x[1] if x[0] == "text" else "\x00" for x in body)):
+                hits.append((it, body))
     key = f"{rel.split('/')[-1]}:{what}"
     if len(hits) != 1:
-        (ctx.bad if hits else ctx.missing)("R4", key, (rel, 0), f"expected one loop defining {prefix_text}.., found {len(hits)}")
+        (ctx.bad if hits else ctx.missing)("R4", key, (rel, 0), f"expected one loop defining {expected}, found {len(hits)}")
         return
-    it = hits[0]
-    outs = [x for x in it[3] if x[0] == "out"]
+    it, body = hits[0]
+    outs = [x for x in body if x[0] == "out"]
     ok = it[2] == seq and it[7] is None and len(outs) == 2 and outs[0][1] == suffix_of(it[1]) and outs[1][1] == IDX0
     ctx.check(ok, "R4", key, (rel, it[5]),
-              f"{prefix_text}<suffix> is paired with loop.index0 over the unfiltered {J.show(seq)}",
-              expected=f"for v in {J.show(seq)}: {prefix_text}{{{{ {J.show(suffix_of(('name', 'v')))} }}}} {{{{ loop.index0 }}}}",
+              f"{expected} is paired with loop.index0 over the unfiltered {J.show(seq)}",
+              expected=f"for v in {J.show(seq)}: {expected.split('<')[0]}{{{{ {J.show(suffix_of(('name', 'v')))} }}}} {{{{ loop.index0 }}}}",
               found=f"for {J.show(it[1])} in {J.show(it[2])}: " + " ".join(J.show(o[1]) for o in outs))
 
 
 def _r4_defs(ctx, pkg):
     alias = lambda v: ("attr", v, "alias")
     for rel in (MACROS, PYIDX):
-        _def_loops(ctx, rel, "IDX_ELEM_", NELEM, _first_key, "IDX_ELEM_ definitions")
-        # species loop: text 'IDX_' but not 'IDX_ELEM_'
-        items = J.flatten(ctx.tree, rel, {})
-        hits = [it for it, st in J.walk_items(items) if it[0] == "for" and re.search(r"IDX_(?!ELEM_)", "".join(x[1] for x in it[3] if x[0] == "text"))]
-        key = f"{rel.split('/')[-1]}:IDX_ definitions"
-        if len(hits) != 1:
-            (ctx.bad if hits else ctx.missing)("R4", key, (rel, 0), f"expected one loop defining IDX_<alias>, found {len(hits)}")
-            continue
-        it = hits[0]
-        outs = [x for x in it[3] if x[0] == "out"]
-        ok = it[2] == NSPEC and it[7] is None and len(outs) == 2 and outs[0][1] == alias(it[1]) and outs[1][1] == IDX0
-        ctx.check(ok, "R4", key, (rel, it[5]), "IDX_<alias> is paired with loop.index0 over the unfiltered network.species",
-                  expected="for spec in network.species: IDX_{{ spec.alias }} {{ loop.index0 }}",
-                  found=f"for {J.show(it[1])} in {J.show(it[2])}: " + " ".join(J.show(o[1]) for o in outs))
+        _def_loops(ctx, rel, r"IDX_ELEM_\x00", NELEM, _first_key, "IDX_ELEM_ definitions", "IDX_ELEM_<suffix>")
+        # species loop: 'IDX_' directly followed by the output, not 'IDX_ELEM_'
+        _def_loops(ctx, rel, r"IDX_\x00", NSPEC, alias, "IDX_ definitions", "IDX_<alias>")
     # constants.py: lists and counts
     ctx.saw(PYCONST)
     items = J.flatten(ctx.tree, PYCONST, {})
@@ -430,17 +467,13 @@ def _r4_uses(ctx):
         for cfg in cfgs:
             items = J.flatten(ctx.tree, rel, cfg)
             prev = ""
-            sets_ = {}
-            for it, st in J.walk_items(items):
+            # `{% set elemname = .. %}` / macro parameters: a later {{ elemname }} is that expression; {{ "ELEM_" ~ x }} is text + {{ x }}
+            for it, st in _stream(items):
                 if it[0] == "text":
-                    prev = it[1]
+                    prev += it[1]
                     continue
-                if it[0] == "set" and it[1][0] == "name":
-                    sets_[it[1][1]] = it[2]        # `{% set elemname = .. %}`: a later {{ elemname }} is that expression
                 if it[0] != "out":
                     continue
-                if it[1][0] == "name" and it[1][1] in sets_:
-                    it = ("out", sets_[it[1][1]]) + tuple(it[2:])
                 m = re.search(r"IDX_(ELEM_)?$", prev)
                 prev = ""
                 if not m:
@@ -872,6 +905,7 @@ def _r9(ctx, pkg):
             ctx.unrec("R9", key, (NETF, f.line), f"the collection that is sorted into the species list is not understood: {show(members)[:140]}")
 
 
+SPEC_UNION = "        speclist = sorted(\n            self._reactants | self._products | set(self._required_species)\n        )\n\n        connection = {sp: set() for sp in speclist}\n"
 MUTANTS = [
     {"name": "enzo-groups-by-name", "file": PATCH, "old": "species_intersect_enzo = [s for s in species_network if s in species_enzo]", "new": "species_intersect_enzo = [s for s in species_network if s.name in set(EnzoPatch.enzo_defined_species_name)]", "rules": ["R11"]},
     {"name": "alias-symbol-table-memo", "edits": [
@@ -886,6 +920,12 @@ MUTANTS = [
     {"name": "alias-single-M", "file": SP, "old": 'else "M" * abs(self.charge),', "new": 'else "M",', "rules": ["R6"]},
     {"name": "grackle-HeII", "file": PATCH, "old": '        "HeII",\n        "HeIII",', "new": '        "HeI",\n        "HeIII",', "rules": ["R6"]},
     {"name": "wrapper-set-deleted", "file": WRAP, "old": "        {% set specnum = species.network | map(attribute='alias') | map('suffix', \"Num\") -%}\n        {% for s, n in zip(network.species, specnum) -%}\n          BaryonField", "new": "        {% for s, n in zip(network.species, specnum) -%}\n          BaryonField", "rules": ["R8"]},
+    {"name": "species-members-listed-not-set", "file": NETF, "old": SPEC_UNION,
+     "new": "        speclist = sorted(\n            [*(self._reactants | self._products), *[s for s in self._required_species if s not in self._reactants | self._products]]\n        )\n\n"
+            "        connection = {sp: set() for sp in speclist}\n", "rules": ["R9"]},
+    {"name": "macro-index-by-macro-loop-index1", "edits": [
+        {"file": MACROS, "old": "// clang-format off\n", "new": "{% macro define_index(label, slot) %}#define IDX_{{ label }} {{ slot }}{% endmacro %}\n// clang-format off\n"},
+        {"file": MACROS, "old": "#define IDX_{{ spec.alias }} {{ loop.index0 }}", "new": "{{ define_index(spec.alias, loop.index) }}"}], "rules": ["R4"]},
     {"name": "species-order-not-total", "file": NETF, "old": "speclist = sorted(speclist, key=lambda x: (len(connection[x]), x))", "new": "speclist = sorted(speclist, key=lambda x: len(connection[x]))", "rules": ["R9"]},
     {"name": "elem-macro-by-name", "file": MACROS, "old": "#define IDX_ELEM_{{ spec.element_count.keys() | first }} {{ loop.index0 }}", "new": "#define IDX_ELEM_{{ spec.name }} {{ loop.index0 }}", "rules": ["R4"]},
     {"name": "config-alias-from-gas", "file": CONF, "old": "self._network_alias = [x.alias for x in species]", "new": "self._network_alias = [x.alias for x in species if not x.is_surface]", "rules": ["R4"]},
@@ -893,6 +933,17 @@ MUTANTS = [
     {"name": "hash-reads-name", "file": SP, "old": '                f"{self.basename}"\n                f"{self.charge}"', "new": '                f"{self.name}"\n                f"{self.charge}"', "rules": ["R7"]},
 ]
 BENIGN = [
+    {"name": "species-helper-method-and-named-key", "edits": [
+        {"file": NETF, "old": SPEC_UNION, "new": "        speclist = self._members_by_name()\n\n        connection = {sp: set() for sp in speclist}\n"},
+        {"file": NETF, "old": "        speclist = sorted(speclist, key=lambda x: (len(connection[x]), x))\n\n        return speclist\n",
+         "new": "        def by_connectivity(sp):\n            return len(connection[sp]), sp\n\n        return sorted(speclist, key=by_connectivity)\n\n"
+                "    def _members_by_name(self):\n        members = self._reactants.union(self._products) | set(self._required_species)\n        return sorted(members)\n"}]},
+    {"name": "elem-symbol-through-set", "file": MACROS, "old": "{% for spec in network.elements %}\n#define IDX_ELEM_{{ spec.element_count.keys() | first }} {{ loop.index0 }}",
+     "new": "{% for elem in network.elements %}\n{% set symbol = elem.element_count | first %}\n#define IDX_ELEM_{{ symbol }} {{ loop.index0 }}"},
+    {"name": "index-macro", "edits": [
+        {"file": MACROS, "old": "// clang-format off\n", "new": "{% macro define_index(label, slot) %}#define IDX_{{ label }} {{ slot }}{% endmacro %}\n// clang-format off\n"},
+        {"file": MACROS, "old": "#define IDX_ELEM_{{ spec.element_count.keys() | first }} {{ loop.index0 }}", "new": "{{ define_index(\"ELEM_\" ~ (spec.element_count | first), loop.index0) }}"},
+        {"file": MACROS, "old": "#define IDX_{{ spec.alias }} {{ loop.index0 }}", "new": "{{ define_index(spec.alias, loop.index0) }}"}]},
     {"name": "loop-var-renamed", "file": MACROS, "old": "{% for spec in network.species %}\n#define IDX_{{ spec.alias }} {{ loop.index0 }}", "new": "{% for sp in network.species %}\n#define IDX_{{ sp.alias }} {{ loop.index0 }}"},
     {"name": "suffix-commuted", "file": SP, "old": '"I" * (self.charge + 1) if self.charge >= 0', "new": '(self.charge + 1) * "I" if self.charge >= 0'},
 ]
